@@ -86,3 +86,59 @@ _p("C10", modules=["ports"], level="proof",
               "obligation checked for main.handle_packet here and for the QUIC path in ports.quic_threading",
    design_ref="DESIGN.md 4 C10", explanation="", assumptions=[], trusted_base=["argparse (ArgumentParser.add_argument/set_defaults/parse_args semantics)"],
    not_under_contract=[])
+
+
+BOUNDED_FRAMING = [{"function": "tlexport.session.Session.extract_server_buf / extract_client_buf / get_tls_records",
+                    "bound": "at most 3 buffered TCP segments carrying at most 14 stream bytes (up to 2 complete records); contents, cut points, "
+                             "sequence numbers (mod 2^32) and arrival order symbolic; all loops unrolled completely within the bound",
+                    "counted_as": "bounded (exhaustive within the bound), NOT as an unbounded proof"}]
+
+_p("C06", modules=["tcp_output", "quic_output", "framing"], level="other",
+   technique="contract-based deductive verification (pyvc: loop invariants incl. nonlinear split arithmetic, callee contracts) + one bounded stand-in",
+   level_text="Proved without bound on the real bodies: build_ack_handshake (SYN/SYN-ACK/ACK, seq 0/0/1, orientation, IPv4 and IPv6); build_server_packet / "
+              "build_client_packet for symbolic record length n and symbolic number k of carrying packets (two loop invariants: the parts tile decrypted[0:n), "
+              "frame j has seq = old + offset_j, ack = peer's counter, each ACK acknowledges exactly the bytes sent, sender counter += n); build() for a record list of "
+              "symbolic length (handshake exactly once and first, direction dispatch, sequence numbers = 1 + bytes sent before, via prefix-sum ghost); "
+              "QUICOutputbuilder.build's per-iteration transition relation and final flush (UDP datagram per capture timestamp, orientation, payload); "
+              "QuicSession.build_output returns only builder frames. Every frame is built from Ether/IP|IPv6/TCP|UDP[/Raw] with no length or checksum field set.",
+   level_note="NOT implied by the discharged obligations and therefore level 'other': (1) byte-level well-formedness (lengths, checksums, pcapng container) is scapy's and "
+              "dpkt's assumed contract; (2) the precondition 'every exported record has >= 1 carrying packet' comes from the BOUNDED framing check; (3) the step from the per-call "
+              "contracts to 'a standard reassembler recovers the streams' is the composition argument of DESIGN 4 C06 (concatenation of consistent segments); (4) 32-bit "
+              "sequence wrap of the OUTPUT (more than 4 GiB per direction) is outside the claim.",
+   design_ref="DESIGN.md 4 C06",
+   explanation="Per-function contracts proved (see level_text); the end-to-end sentence 'the output file is a valid pcapng ... a standard reassembler recovers exactly the "
+               "exported streams' additionally needs scapy/dpkt's serialisers (assumed) and the paper composition of the per-call sequence-number contracts.",
+   assumptions=["scapy fills in every length/checksum field that was not set explicitly; str and bytes spellings of an address denote the same address",
+                "dpkt.pcapng.Writer writes a valid pcapng for (bytes, float timestamp) pairs",
+                "A-FLOORDIV: floor(fl(n/k)) == n div k for 0 <= n, 1 <= k, n + k < 2^53 (paper proof in DESIGN 3.2)"],
+   trusted_base=["scapy layer constructors and serialiser", "dpkt.pcapng.Writer"], bounded=BOUNDED_FRAMING,
+   composition_assumptions=["concatenating per-record frame groups whose first sequence number equals 1 + bytes sent before yields gap-free, non-overlapping sequence space per direction"],
+   not_under_contract=["main.run writer loop (bytes(buf), ts) -> dpkt (covered by the run() contracts of C18/C11 when built)"])
+
+_p("C07", modules=["tcp_output", "quic_output", "framing", "ports"], level="other",
+   technique="contract-based deductive verification (pyvc) + one bounded stand-in",
+   level_text="Proved on the real bodies: every frame the TLS builder emits is oriented sender->receiver with the session's MACs, IPs (IP version as the session's) and "
+              "ports, the client port unchanged (tcp_out.* orientation clauses, all 22 scapy constructions); data frame j of a record carries the timestamp of the j-th packet "
+              "that carried the record, ACKs the same; the handshake carries the time of the first exported record's first packet; QUIC datagrams carry the "
+              "timestamp and direction of the input datagram whose frames they hold; roles are taken from the first packet as documented (ports.roles); a record's "
+              "metadata is exactly the buffered segments overlapping its byte range, in stream order (framing.extract, BOUNDED).",
+   level_note="microsecond preservation = the float timestamp passing unchanged from dpkt's reader to dpkt's writer (trusted); metadata exactness is bounded (<= 3 segments, <= 14 bytes)",
+   design_ref="DESIGN.md 4 C07",
+   explanation="Orientation and timestamp clauses are postconditions proved per builder call for symbolic sizes; the metadata clause is only bounded; timestamp resolution is a "
+               "library property (dpkt reader/writer) and not reached.",
+   assumptions=["timestamps are opaque tokens that the code only copies (modelled as integers; equality only)"],
+   trusted_base=["scapy layer constructors", "dpkt readers/writers (timestamp resolution)"], bounded=BOUNDED_FRAMING,
+   not_under_contract=["dpkt_dsb.Reader timestamp arithmetic (C12)"])
+
+_p("C05", modules=["framing"], level="other",
+   technique="contracts on the real functions checked exhaustively within a stated bound (bounded stand-in) + unbounded dedupe contract",
+   level_text="BOUNDED (<= 3 segments, <= 14 stream bytes, everything else symbolic): extract_server_buf/extract_client_buf release exactly frame(D) when the buffered segments chain "
+              "contiguously modulo 2^32 and D ends on a record boundary, and otherwise release nothing and keep every segment; get_tls_records delivers, for every cut of a "
+              "stream into <= 3 segments, every initial sequence number and every capture order outside the recorded finding's region, a prefix of frame(S) and all of it when S "
+              "ends on a boundary. UNBOUNDED: Session.handle_packet buffers a segment iff its sequence number was not seen in its direction.",
+   level_note="bounded, not a proof: an unbounded loop contract for the framing loops (DESIGN Appendix C.6) was not completed; one open finding (early segment at an empty buffer) is "
+              "excluded by region and re-confirmed natively on every run",
+   design_ref="DESIGN.md 4 C05",
+   explanation="The property quantifies over all segmentations; the check covers all segmentations into at most 3 segments of streams of at most 14 bytes. It is exhaustive within that "
+               "bound and silent beyond it.",
+   assumptions=[], trusted_base=["list.sort (stable, total order by key)"], bounded=BOUNDED_FRAMING, not_under_contract=["main.run's skip of empty segments (run() contract)"])
